@@ -333,6 +333,12 @@ func remapAndFill(c *props.Ctx, fns []*ssa.Function) {
 	}
 	perF := map[string]int{}
 	sites := eng.FillRules(helper, callers, mc.ModelingPath)
+	pair3 := eng.PairEnumerates(helper)
+	if pair3 == nil {
+		c.R.Undecide("PAIR-3", p.FuncName(helper)+"→PAIR-3", p.Pos(helper.Pos()), "the attribute-combining helper does not take the two operands' attribute maps as two parameters of one map type")
+	}
+	sites = append(sites, pair3...)
+	c.R.Floor("PAIR-3", 2)
 	nFill := 0
 	for _, s := range sites {
 		if s.Rule == "FILL-1" {
